@@ -6,55 +6,55 @@ import Dmn.Gen.Lalr
 
 Characters are Unicode code points (`Nat`), the input is a `List Nat` with an explicit cursor
 `pos` (`Lexer::input: Vec<char>`, `Lexer::position`).  `char_at(offset)` is
-`input[pos + offset]?` (lexer.rs:895).  Every function mirrors the Rust function of the same
+`input[pos + offset]?` (lexer.rs:901).  Every function mirrors the Rust function of the same
 name; single-direction scanning loops (`consume_whitespace`, `consume_comment`,
 `consume_digits`, `is_next_character`) are structural recursions over the rest of the input;
 the two loops that are not single-direction scans (the name state machine of `consume_name`
 and the `consume_string` loop) run on an iteration budget (`fuelOut` when exhausted; proved
 unreachable in `Lemmas/LexerTotal.lean`).
 
-Also here: `Name::new` (`feel/src/names.rs:100`), `flatten_name_parts` (lexer.rs:1048).
+Also here: `Name::new` (`feel/src/names.rs:100`), `flatten_name_parts` (lexer.rs:1054).
 -/
 
 namespace Dmn.Lexer
 
-/-! ## Character classes (lexer.rs:963-1020) -/
+/-! ## Character classes (lexer.rs:969-1026) -/
 
-/-- `is_digit` (lexer.rs:969). -/
+/-- `is_digit` (lexer.rs:975). -/
 def isDigit (ch : Nat) : Bool := 48 ≤ ch && ch ≤ 57
 
-/-- `is_hex_digit` (lexer.rs:974): `ch.is_digit(16)`. -/
+/-- `is_hex_digit` (lexer.rs:980): `ch.is_digit(16)`. -/
 def isHexDigit (ch : Nat) : Bool :=
   (48 ≤ ch && ch ≤ 57) || (97 ≤ ch && ch ≤ 102) || (65 ≤ ch && ch ≤ 70)
 
-/-- `hex_to_decimal` (lexer.rs:1023) on hexadecimal digits. -/
+/-- `hex_to_decimal` (lexer.rs:1029) on hexadecimal digits. -/
 def hexVal (ch : Nat) : Nat :=
   if 48 ≤ ch && ch ≤ 57 then ch - 48
   else if 97 ≤ ch && ch ≤ 102 then ch - 87
   else ch - 55
 
-/-- `is_vertical_space` (lexer.rs:1018). -/
+/-- `is_vertical_space` (lexer.rs:1024). -/
 def isVerticalSpace (ch : Nat) : Bool := 0x0A ≤ ch && ch ≤ 0x0D
 
-/-- `is_whitespace` (lexer.rs:1007). -/
+/-- `is_whitespace` (lexer.rs:1013). -/
 def isWhitespace (ch : Nat) : Bool :=
   isVerticalSpace ch || ch == 0x09 || ch == 0x20 || ch == 0x85 || ch == 0xA0 || ch == 0x1680 ||
   ch == 0x180E || (0x2000 ≤ ch && ch ≤ 0x200B) || ch == 0x2028 || ch == 0x2029 || ch == 0x202F ||
   ch == 0x205F || ch == 0x3000 || ch == 0xFEFF
 
-/-- `is_separator` (lexer.rs:964): WS = ! < > + - * / % . , ) [ ] } -/
+/-- `is_separator` (lexer.rs:970): WS = ! < > + - * / % . , ) [ ] } -/
 def isSeparator (ch : Nat) : Bool :=
   ch == 32 || ch == 61 || ch == 33 || ch == 60 || ch == 62 || ch == 43 || ch == 45 || ch == 42 ||
   ch == 47 || ch == 37 || ch == 46 || ch == 44 || ch == 41 || ch == 91 || ch == 93 || ch == 125
 
-/-- `is_keyword_not_separator` (lexer.rs:980): WS or `(`. -/
+/-- `is_keyword_not_separator` (lexer.rs:986): WS or `(`. -/
 def isKeywordNotSeparator (ch : Nat) : Bool := ch == 32 || ch == 40
 
-/-- `is_additional_name_symbol` (lexer.rs:986): `.` `/` `-` `'` `+` `*`. -/
+/-- `is_additional_name_symbol` (lexer.rs:992): `.` `/` `-` `'` `+` `*`. -/
 def isAdditionalNameSymbol (ch : Nat) : Bool :=
   ch == 46 || ch == 47 || ch == 45 || ch == 39 || ch == 43 || ch == 42
 
-/-- `is_name_start_char` (lexer.rs:992). -/
+/-- `is_name_start_char` (lexer.rs:998). -/
 def isNameStartChar (ch : Nat) : Bool :=
   ch == 63 || (65 ≤ ch && ch ≤ 90) || ch == 95 || (97 ≤ ch && ch ≤ 122) ||
   (0xC0 ≤ ch && ch ≤ 0xD6) || (0xD8 ≤ ch && ch ≤ 0xF6) || (0xF8 ≤ ch && ch ≤ 0x2FF) ||
@@ -62,7 +62,7 @@ def isNameStartChar (ch : Nat) : Bool :=
   (0x2070 ≤ ch && ch ≤ 0x218F) || (0x2C00 ≤ ch && ch ≤ 0x2FEF) || (0x3001 ≤ ch && ch ≤ 0xD7FF) ||
   (0xF900 ≤ ch && ch ≤ 0xFDCF) || (0xFDF0 ≤ ch && ch ≤ 0xFFFD) || (0x10000 ≤ ch && ch ≤ 0xEFFFF)
 
-/-- `is_name_part_char` (lexer.rs:1002). -/
+/-- `is_name_part_char` (lexer.rs:1008). -/
 def isNamePartChar (ch : Nat) : Bool :=
   isNameStartChar ch || isDigit ch || ch == 0xB7 || (0x300 ≤ ch && ch ≤ 0x36F) ||
   (0x203F ≤ ch && ch ≤ 0x2040)
@@ -120,7 +120,7 @@ def replaceSym (x : Nat) : Nat → List Nat → List Nat
     if c == 32 && startsWith s [x, 32] then x :: replaceSym x 2 s
     else c :: replaceSym x 0 s
 
-/-- `flatten_name_parts` (lexer.rs:1048-1062). -/
+/-- `flatten_name_parts` (lexer.rs:1054-1068). -/
 def flattenNameParts (parts : List (List Nat)) : List Nat :=
   let s := trim (joinSp (parts.map trim))
   let s := replaceSym 46 0 s   -- " . " → "."
@@ -190,7 +190,7 @@ structure Token where
 
 def tk (tt : TT) : Token := ⟨tt, .none⟩
 
-/-- `errors::LexerError` (lexer.rs:1116). -/
+/-- `errors::LexerError` (lexer.rs:1122). -/
 inductive LexErr where
   | unexpectedEof
   | expectedCharacter (expected actual : Nat)
@@ -203,11 +203,11 @@ inductive LexErr where
 
 /-- Places where `consume_name` indexes a vector or subtracts. -/
 inductive PanicSite where
-  | itemPositions0      -- lexer.rs:638 `consumed_positions[0]`
-  | tillInIndexMinus1   -- lexer.rs:652 `index - 1` with `index = 0` (`usize` underflow)
-  | tillInPositions     -- lexer.rs:652 `consumed_positions[index - 1]`
-  | prefixSlice         -- lexer.rs:663 `&parts[..part_count]`
-  | prefixPositions     -- lexer.rs:670 `consumed_positions[part_count - 1]`
+  | itemPositions0      -- lexer.rs:644 `consumed_positions[0]`
+  | tillInIndexMinus1   -- lexer.rs:658 `index - 1` with `index = 0` (`usize` underflow)
+  | tillInPositions     -- lexer.rs:658 `consumed_positions[index - 1]`
+  | prefixSlice         -- lexer.rs:669 `&parts[..part_count]`
+  | prefixPositions     -- lexer.rs:676 `consumed_positions[part_count - 1]`
   deriving DecidableEq, Repr
 
 abbrev Out (α : Type) := LexOutcome LexErr PanicSite α
@@ -219,18 +219,18 @@ def countWhile (p : Nat → Bool) : List Nat → Nat
   | [] => 0
   | c :: s => if p c then countWhile p s + 1 else 0
 
-/-- `consume_whitespace` (lexer.rs:446): the new position. -/
+/-- `consume_whitespace` (lexer.rs:452): the new position. -/
 def consumeWhitespace (inp : List Nat) (pos : Nat) : Nat :=
   pos + countWhile isWhitespace (inp.drop pos)
 
 /-- Length of a block comment body up to and including the closing `*/` (whole rest when
-unterminated) — the loop at lexer.rs:472-480. -/
+unterminated) — the loop at lexer.rs:478-486. -/
 def blockCommentLen : List Nat → Nat
   | [] => 0
   | 42 :: 47 :: _ => 2
   | _ :: s => blockCommentLen s + 1
 
-/-- `consume_comment` (lexer.rs:458): the new position. A line comment stops *before* the
+/-- `consume_comment` (lexer.rs:464): the new position. A line comment stops *before* the
 line feed. -/
 def consumeComment (inp : List Nat) (pos : Nat) : Nat :=
   match inp[pos]?, inp[pos + 1]? with
@@ -252,18 +252,22 @@ def skipLoop (inp : List Nat) : Nat → Nat → Nat
 def skipBlanks (inp : List Nat) (pos : Nat) : Nat :=
   skipLoop inp (inp.length - pos + 1) pos
 
-/-- One cell of the look-ahead buffer of `read_input` (lexer.rs:433-440): white space and
-positions beyond the end read as `WS`. -/
+/-- `is_comment_start` (lexer.rs:446): `//` or `/*` at this position. -/
+def isCommentStart (inp : List Nat) (p : Nat) : Bool :=
+  inp[p]? == some 47 && (inp[p + 1]? == some 47 || inp[p + 1]? == some 42)
+
+/-- One cell of the look-ahead buffer of `read_input` (lexer.rs:433-441): white space, the
+first character of a comment and positions beyond the end read as `WS`. -/
 def bufCell (inp : List Nat) (pos off : Nat) : Nat :=
   match inp[pos + off]? with
-  | some ch => if isWhitespace ch then 32 else ch
+  | some ch => if isWhitespace ch || isCommentStart inp (pos + off) then 32 else ch
   | none => 32
 
 /-- `read_input`'s buffer (`BUF_SIZE = 12`). -/
 def readBuf (inp : List Nat) (pos : Nat) : List Nat :=
   (List.range 12).map (bufCell inp pos)
 
-/-- `is_next_character` (lexer.rs:950) on the rest of the input. -/
+/-- `is_next_character` (lexer.rs:956) on the rest of the input. -/
 def nextCharIn (chars : List Nat) : List Nat → Bool
   | [] => false
   | ch :: s => if chars.contains ch then true else if !isWhitespace ch then false else nextCharIn chars s
@@ -271,15 +275,15 @@ def nextCharIn (chars : List Nat) : List Nat → Bool
 def isNextCharacter (inp : List Nat) (pos : Nat) (chars : List Nat) (off : Nat) : Bool :=
   nextCharIn chars (inp.drop (pos + off))
 
-/-- `consume_digits` (lexer.rs:542): the digits and the new position. -/
+/-- `consume_digits` (lexer.rs:548): the digits and the new position. -/
 def consumeDigits (inp : List Nat) (pos : Nat) : List Nat × Nat :=
   let ds := (inp.drop pos).takeWhile isDigit
   (ds, pos + ds.length)
 
-/-! ## String literals (lexer.rs:487-536, 715-856) -/
+/-! ## String literals (lexer.rs:493-542, 715-856) -/
 
-/-- `k` calls of `consume_hex_digit` (lexer.rs:716), accumulating `acc * 16 + digit` — the same
-number as the weighted sum of `consume_unicode_literal` (lexer.rs:777-783). -/
+/-- `k` calls of `consume_hex_digit` (lexer.rs:722), accumulating `acc * 16 + digit` — the same
+number as the weighted sum of `consume_unicode_literal` (lexer.rs:783-789). -/
 def hexDigits (inp : List Nat) : Nat → Nat → Nat → Out (Nat × Nat)
   | 0, pos, acc => .ok (acc, pos)
   | k + 1, pos, acc =>
@@ -289,7 +293,7 @@ def hexDigits (inp : List Nat) : Nat → Nat → Nat → Out (Nat × Nat)
       if isHexDigit ch then hexDigits inp k (pos + 1) (acc * 16 + hexVal ch)
       else .error (.expectedHexDigit ch) pos
 
-/-- `consume_unicode_literal` (lexer.rs:772): value and new position. -/
+/-- `consume_unicode_literal` (lexer.rs:778): value and new position. -/
 def consumeUnicodeLiteral (inp : List Nat) (pos : Nat) : Out (Nat × Nat) :=
   match inp[pos]? with
   | none => .error .unexpectedEof pos
@@ -303,7 +307,7 @@ def consumeUnicodeLiteral (inp : List Nat) (pos : Nat) : Out (Nat × Nat) :=
         else if u == 117 then hexDigits inp 4 (pos + 2) 0
         else .error (.expectedCharacters u) (pos + 1)
 
-/-- `consume_unicode` (lexer.rs:790): the character and the new position.  In the four
+/-- `consume_unicode` (lexer.rs:796): the character and the new position.  In the four
 direct ranges and in the surrogate branch the bytes built by the code are the UTF-8 encoding
 of the code point (`0x10000 ≤ cp ≤ 0x10FFFF` for a surrogate pair), so `String::from_utf8`
 succeeds and yields it; `unicode_conversion_failed` is unreachable. -/
@@ -326,7 +330,7 @@ def consumeUnicode (inp : List Nat) (pos : Nat) : Out (Nat × Nat) :=
         else .error (.unicodeSurrogateOutOfRange value) p2
     else .error (.unicodeValueOutOfRange value) p
 
-/-- The loop of `consume_string` (lexer.rs:490-534), after the opening quote. -/
+/-- The loop of `consume_string` (lexer.rs:496-540), after the opening quote. -/
 def stringLoop (inp : List Nat) : Nat → Nat → List Nat → Out (Token × Nat)
   | 0, _, _ => .fuelOut
   | fuel + 1, pos, acc =>
@@ -350,11 +354,11 @@ def stringLoop (inp : List Nat) : Nat → Nat → List Nat → Out (Token × Nat
       else if isVerticalSpace c1 then .ok (tk .yyUndef, pos)                              -- :528
       else stringLoop inp fuel (pos + 1) (acc ++ [c1])                                    -- :531
 
-/-- `consume_string` (lexer.rs:487); `inp[pos]` is the opening quote. -/
+/-- `consume_string` (lexer.rs:493); `inp[pos]` is the opening quote. -/
 def consumeString (inp : List Nat) (pos : Nat) : Out (Token × Nat) :=
   stringLoop inp (inp.length - pos + 1) (pos + 1) []
 
-/-! ## Names (lexer.rs:556-713) -/
+/-! ## Names (lexer.rs:562-719) -/
 
 /-- `state` of the name state machine (the Rust variable only ever holds 1..5). -/
 inductive NState where
@@ -382,7 +386,7 @@ inductive NStep where
   | brk (s : NameSt)
   | err (e : LexErr) (pos : Nat)
 
-/-- One iteration of the loop lexer.rs:568-628. -/
+/-- One iteration of the loop lexer.rs:574-634. -/
 def nameStep (inp : List Nat) (s : NameSt) : NStep :=
   match s.state with
   | .s1 | .s3 =>
@@ -422,7 +426,7 @@ def nameLoop (inp : List Nat) : Nat → NameSt → Out NameSt
     | .brk s' => .ok s'
     | .err e p => .error e p
 
-/-- Part collection: lexer.rs:557-628. `inp[pos]` is a name start character. -/
+/-- Part collection: lexer.rs:563-634. `inp[pos]` is a name start character. -/
 def collectParts (inp : List Nat) (pos : Nat) : Out NameSt :=
   match inp[pos]? with
   | none => .error .unexpectedEof pos                                     -- :564 peek_character()?
@@ -450,7 +454,7 @@ def positionOfIn : List (List Nat) → Option Nat
   | [] => none
   | p :: ps => if p == kwIn then some 0 else (positionOfIn ps).map (· + 1)
 
-/-- The longest-prefix loop lexer.rs:659-675: `some (part_count)` of the first (longest)
+/-- The longest-prefix loop lexer.rs:665-681: `some (part_count)` of the first (longest)
 prefix whose `Name::new` text is a key; accesses made explicit. -/
 def prefixLoop (keys : List (List Nat)) (parts : List (List Nat)) (positions : List Nat) :
     Nat → Out (Option (List (List Nat) × Nat))
@@ -489,7 +493,7 @@ def nmTime : List Nat := [116, 105, 109, 101]
 
 def nameTok (tt : TT) (parts : List (List Nat)) : Token := ⟨tt, .name (nameNew parts)⟩
 
-/-- The part of `consume_name` after the loop (lexer.rs:630-712). `st` is what the part
+/-- The part of `consume_name` after the loop (lexer.rs:636-718). `st` is what the part
 collector left: parts, consumed positions and the cursor. -/
 def finishName (l : Lx) (st : NameSt) : Out (Token × Lx) :=
   -- :636 tweak with the name `item`
@@ -530,7 +534,7 @@ def finishName (l : Lx) (st : NameSt) : Out (Token × Lx) :=
           else .ok (⟨.nameDateTime, .name name⟩, l)
         else .ok (⟨.name, .name name⟩, l)
 
-/-- `consume_name` (lexer.rs:556). -/
+/-- `consume_name` (lexer.rs:562). -/
 def consumeName (l : Lx) : Out (Token × Lx) :=
   match collectParts l.input l.pos with
   | .error e p => .error e p
@@ -642,7 +646,7 @@ def nextToken (l : Lx) : Out (Token × Lx) :=
     | .panic s => .panic s
     | .fuelOut => .fuelOut
 
-/-- What the hook `verif::tokenize` reports (lexer.rs:1076): the tokens with the cursor
+/-- What the hook `verif::tokenize` reports (lexer.rs:1082): the tokens with the cursor
 after each, ending at end of input, at an error or panic, or after `limit` tokens. -/
 inductive Item where
   | token (t : Token) (pos : Nat)
